@@ -169,8 +169,8 @@ def _shape_diff(lib, ref, errpaths, path=()):
 
 
 def _via(case):
-    """operator and sub-kind (first two components of each tag) of the mutations applied"""
-    return "+".join(":".join(t.split(":")[:2]) for t in case.get("muts", [])) or "seed"
+    """operator, sub-kind and placement (first three components of each tag) of the mutations applied"""
+    return "+".join(":".join(t.split(":")[:3]) for t in case.get("muts", [])) or "seed"
 
 
 def evaluate(name, case, st, bounds):
